@@ -176,6 +176,8 @@ pub enum Pace {
     SleepUs(u32),
     /// wait (bounded) until the receiver is at this window, then go on at once
     Aim(u8),
+    /// line up with the other senders (bounded), so that the next operations collide
+    Gate,
 }
 
 #[derive(Clone, Copy, Debug)]
@@ -434,6 +436,7 @@ pub fn gen_plan(seed: u64, prop: u64, case: u64, cfg: &GenCfg) -> Plan {
         }
     };
 
+    let gate_pm = if aim_ok && n_senders > 1 { *g.pick(&[0u64, 0, 0, 300, 1000]) } else { 0 };
     let mut senders = Vec::new();
     for _ in 0..n_senders {
         let n = (send_ops / n_senders).max(1);
@@ -449,6 +452,9 @@ pub fn gen_plan(seed: u64, prop: u64, case: u64, cfg: &GenCfg) -> Plan {
         for _ in 0..n {
             if g.below(1000) < pace_pm {
                 ops.push(SOp::Pace(gen_pace(&mut g, cfg.delays, aim_ok)));
+            }
+            if g.below(1000) < gate_pm {
+                ops.push(SOp::Pace(Pace::Gate));
             }
             let total: u64 = if tokio_ok { w.iter().sum() } else { w[..3].iter().sum() };
             let mut k = g.below(total.max(1));
@@ -775,6 +781,8 @@ pub struct ScCtx {
     waiting: [AtomicU32; NWIN],
     open_gen: [AtomicU64; NWIN],
     acks: AtomicU64,
+    gate: AtomicU64,
+    gate_k: AtomicU64,
 }
 
 impl ScCtx {
@@ -788,6 +796,8 @@ impl ScCtx {
             waiting: Default::default(),
             open_gen: Default::default(),
             acks: AtomicU64::new(0),
+            gate: AtomicU64::new(0),
+            gate_k: AtomicU64::new(1),
         })
     }
 
@@ -825,6 +835,23 @@ impl ScCtx {
         }
         self.waiting[w].fetch_sub(1, SeqCst);
         hit
+    }
+
+    /// Sender side: wait (bounded) until all senders arrived at their next gate.
+    fn gate(&self) {
+        let k = self.gate_k.load(SeqCst).max(1);
+        let t = self.gate.fetch_add(1, SeqCst) + 1;
+        let target = ((t + k - 1) / k) * k;
+        for i in 0..3000u32 {
+            if self.gate.load(SeqCst) >= target {
+                break;
+            }
+            if i % 64 == 63 {
+                thread::yield_now();
+            } else {
+                std::hint::spin_loop();
+            }
+        }
     }
 
     fn ack(&self) {
@@ -988,6 +1015,7 @@ fn pace(sc: &ScCtx, p: Pace) -> bool {
         }
         Pace::SleepUs(us) => thread::sleep(Duration::from_micros(us as u64)),
         Pace::Aim(w) => return sc.aim(w),
+        Pace::Gate => sc.gate(),
     }
     false
 }
@@ -1375,6 +1403,7 @@ pub fn run_concurrent(plan: &Plan, delays: bool) -> History {
     let sc = ScCtx::new(uid, plan.seed ^ plan.case.wrapping_mul(0x9E37_79B9), plan.hook, delays);
     REG.lock().unwrap().push((uid, sc.clone()));
     enter(&sc, ROLE_MAIN);
+    sc.gate_k.store(plan.senders.len() as u64, SeqCst);
 
     let (sender, receiver) = eb::bounded::<Q>(plan.cap);
     let metrics_src = sender.metric_source();
